@@ -40,7 +40,13 @@ def _uf_abstract(*args, name, out_avals):
 uf_p.def_abstract_eval(_uf_abstract)
 
 
+UF_PLAYBACK = []  # replay only: the values the k-th eager call of an opaque function returns (set by Encoded.real_outputs)
+
+
 def _uf_impl(*args, name, out_avals):
+    if UF_PLAYBACK:
+        vals = UF_PLAYBACK.pop(0)
+        return [jnp.asarray(np.asarray(v).reshape(s), dtype=d) for v, (s, d) in zip(vals, out_avals)]
     raise RuntimeError("uf primitive has no concrete implementation; it only exists in traced harnesses")
 
 
